@@ -90,6 +90,10 @@ Section R.
   Proof. unfold gen_ElGamalCiphertext_decrypt, egct_decrypt. r_auto. Qed.
   Lemma r_egdk_decrypt dk ct : gen_ElGamalDecryptionKey_decrypt E dk ct = Val (egdk_decrypt dk ct).
   Proof. reflexivity. Qed.
+  (* the owned `+` of ElGamalCiphertext, which every other spelling of `+` delegates to *)
+  Lemma r_egct_add a b : gen_ElGamalCiphertext_add E a b = Val (egct_add a b).
+  Proof. unfold gen_ElGamalCiphertext_add, egct_add. r_auto. Qed.
+
   Lemma r_egp_verify p pk : gen_ElGamalProof_verify E p pk = Val (egp_verify O C p pk).
   Proof. unfold gen_ElGamalProof_verify, egp_verify. r_auto. Qed.
   Lemma r_egp_verify_and_decrypt p sk :
@@ -131,6 +135,7 @@ Print Assumptions r_scdk_decrypt.
 Print Assumptions r_sds_verify.
 Print Assumptions r_tlct_decrypt.
 Print Assumptions r_egct_decrypt.
+Print Assumptions r_egct_add.
 Print Assumptions r_egdk_decrypt.
 Print Assumptions r_egp_verify.
 Print Assumptions r_egp_verify_and_decrypt.
